@@ -38,6 +38,7 @@ type Clause struct {
 	Src    string
 	Anchor string // loop anchor or callee key
 	Arg    string // call-site distinguishing constant
+	When    *CExpr // bind: syntactic guard a == b
 	InScope bool  // returns? : checked only at return sites where every identifier of the clause is in scope
 	File   string
 	Line   int
@@ -63,6 +64,7 @@ type FuncContract struct {
 	Invs     []*Clause
 	Decr     []*Clause
 	CallReqs []*Clause
+	Binds    []*Clause // call <callee> bind name = expr [when a == b]: snapshot a value right after a call, usable by later clauses
 	MapReqs  []*Clause // mapupdate <field-or-variable> requires ...: obligations at every m[k] = v on that map
 	Ghosts   []*Clause // unused
 	Steps    []*Step   // fresh / invoke steps of assumed higher-order contracts, in order
@@ -497,6 +499,35 @@ func (c *Contracts) LoadFile(path string) error {
 					cl.Name = fmt.Sprintf("L%d", ln)
 				}
 				cur.CallReqs = append(cur.CallReqs, cl)
+			case "bind":
+				// bind name = expr [when a == b]
+				nm, r2 := cutWord(r)
+				r2 = strings.TrimSpace(r2)
+				if !strings.HasPrefix(r2, "=") {
+					c.errf(path, ln, "call ... bind name = expr")
+					continue
+				}
+				r2 = strings.TrimSpace(r2[1:])
+				whenSrc := ""
+				if i := strings.Index(r2, " when "); i >= 0 {
+					whenSrc = r2[i+6:]
+					r2 = r2[:i]
+				}
+				e, err := ParseCExpr(r2)
+				if err != nil {
+					c.errf(path, ln, "%v", err)
+					continue
+				}
+				cl := &Clause{Kind: "bind", Name: nm, Expr: e, Src: r2, Anchor: callee, Arg: arg, File: path, Line: ln}
+				if whenSrc != "" {
+					we, err := ParseCExpr(whenSrc)
+					if err != nil {
+						c.errf(path, ln, "%v", err)
+						continue
+					}
+					cl.When = we
+				}
+				cur.Binds = append(cur.Binds, cl)
 			case "cover":
 				tags, _ := splitTags(r)
 				cur.CallReqs = append(cur.CallReqs, &Clause{Kind: "callcover", Name: "exists", Props: tags, Anchor: callee, Arg: arg, File: path, Line: ln})
